@@ -955,4 +955,413 @@ theorem run_take_output (w : World) (ops : List Op) (i : Nat) (op : Op) (h : ops
       exact ih _ _ h
 
 
+
+
+/-! ## keys -/
+
+theorem lowerAscii_eq_iff_of_fixed (x : Char) (hx : lowerAscii x = x) (hnot : ∀ c, lowerAscii c = x → c = x) (c : Char) :
+    lowerAscii c = x ↔ c = x := ⟨hnot c, fun h => by rw [h, hx]⟩
+
+theorem lowerAscii_dot (c : Char) : lowerAscii c = '.' ↔ c = '.' := by
+  constructor
+  · intro h; unfold lowerAscii at h; split at h <;> first | exact h | (revert h; decide)
+  · intro h; subst h; rfl
+
+theorem lowerAscii_bslash (c : Char) : lowerAscii c = '\\' ↔ c = '\\' := by
+  constructor
+  · intro h; unfold lowerAscii at h; split at h <;> first | exact h | (revert h; decide)
+  · intro h; subst h; rfl
+
+theorem lowerAscii_bar (c : Char) : lowerAscii c = '|' ↔ c = '|' := by
+  constructor
+  · intro h; unfold lowerAscii at h; split at h <;> first | exact h | (revert h; decide)
+  · intro h; subst h; rfl
+
+theorem takeWhile_bslash_map (l : List Char) :
+    ((l.map lowerAscii).takeWhile (· == '\\')).length = (l.takeWhile (· == '\\')).length := by
+  induction l with
+  | nil => rfl
+  | cons c rest ih =>
+    simp only [List.map_cons, List.takeWhile_cons]
+    by_cases hc : c = '\\'
+    · subst hc
+      have h0 : lowerAscii '\\' = '\\' := rfl
+      simp [h0, ih]
+    · have : ¬ lowerAscii c = '\\' := fun h => hc ((lowerAscii_bslash c).mp h)
+      simp [hc, this]
+
+theorem isFqdn_map_lower (s : List Char) : isFqdn (s.map lowerAscii) = isFqdn s := by
+  unfold isFqdn
+  rw [← List.map_reverse]
+  cases hr : s.reverse with
+  | nil => rfl
+  | cons c rest =>
+    simp only [List.map_cons]
+    by_cases hc : c = '.'
+    · subst hc
+      show (match '.' :: rest.map lowerAscii with | '.' :: rest => _ | _ => false) = _
+      simp only [takeWhile_bslash_map]
+    · have h1 : ¬ lowerAscii c = '.' := fun h => hc ((lowerAscii_dot c).mp h)
+      split
+      · rename_i heq; simp only [List.cons.injEq] at heq; exact absurd heq.1 h1
+      · split
+        · rename_i heq; simp only [List.cons.injEq] at heq; exact absurd heq.1 hc
+        · rfl
+
+/-- **Case-insensitive names.**  Two spellings of a name that differ only in ASCII letter case give
+the same canonical name, hence the same cache key for every type and route. -/
+theorem canon_case_insensitive (n1 n2 : List Char) (h : n1.map lowerAscii = n2.map lowerAscii) :
+    canon n1 = canon n2 := by
+  unfold canon fqdn
+  have hf : isFqdn n1 = isFqdn n2 := by rw [← isFqdn_map_lower n1, ← isFqdn_map_lower n2, h]
+  rw [hf]
+  split <;> simp [h]
+
+
+theorem split_first {α : Type} (x : α) (a1 a2 b1 b2 : List α) (h1 : x ∉ a1) (h2 : x ∉ a2)
+    (h : a1 ++ x :: b1 = a2 ++ x :: b2) : a1 = a2 ∧ b1 = b2 := by
+  induction a1 generalizing a2 with
+  | nil =>
+    cases a2 with
+    | nil => simpa using h
+    | cons y ys =>
+      simp only [List.nil_append, List.cons_append, List.cons.injEq] at h
+      exact absurd (h.1 ▸ List.mem_cons_self) h2
+  | cons z zs ih =>
+    cases a2 with
+    | nil =>
+      simp only [List.nil_append, List.cons_append, List.cons.injEq] at h
+      exact absurd (h.1 ▸ List.mem_cons_self) h1
+    | cons y ys =>
+      simp only [List.cons_append, List.cons.injEq] at h
+      obtain ⟨r1, r2⟩ := ih ys (fun hm => h1 (List.mem_cons_of_mem _ hm)) (fun hm => h2 (List.mem_cons_of_mem _ hm)) h.2
+      exact ⟨by rw [h.1, r1], r2⟩
+
+theorem split_last {α : Type} (x : α) (a1 a2 b1 b2 : List α) (h1 : x ∉ b1) (h2 : x ∉ b2)
+    (h : a1 ++ x :: b1 = a2 ++ x :: b2) : a1 = a2 ∧ b1 = b2 := by
+  have h' := congrArg List.reverse h
+  simp only [List.reverse_append, List.reverse_cons, List.append_assoc, List.singleton_append] at h'
+  obtain ⟨r1, r2⟩ := split_first x b1.reverse b2.reverse a1.reverse a2.reverse (by simpa using h1) (by simpa using h2) h'
+  exact ⟨List.reverse_inj.mp r2, List.reverse_inj.mp r1⟩
+
+theorem digit_ne {c : Char} (h : c ∈ Nat.toDigits 10 n) : c ≠ '|' ∧ c ≠ '.' := by
+  have hd := Nat.isDigit_of_mem_toDigits (by decide) (by decide) h
+  constructor <;> (intro hc; subst hc; revert hd; decide)
+
+theorem toDigits_inj {a b : Nat} (h : Nat.toDigits 10 a = Nat.toDigits 10 b) : a = b := by
+  have := congrArg (fun l => Nat.ofDigitChars 10 l 0) h
+  simpa [Nat.ofDigitChars_ten_toDigits] using this
+
+theorem isFqdn_ends {s : List Char} (h : isFqdn s = true) : ∃ l, s = l ++ ['.'] := by
+  unfold isFqdn at h
+  split at h
+  · rename_i rest heq
+    exact ⟨rest.reverse, by rw [← List.reverse_reverse s, heq]; simp⟩
+  · cases h
+
+theorem canon_ends (n : List Char) : ∃ l, canon n = l ++ ['.'] := by
+  unfold canon fqdn
+  by_cases h : isFqdn n = true
+  · obtain ⟨l, hl⟩ := isFqdn_ends h
+    rw [if_pos h, hl]
+    exact ⟨l.map lowerAscii, by simp; rfl⟩
+  · rw [if_neg h]
+    exact ⟨n.map lowerAscii, by simp; rfl⟩
+
+theorem bar_notin_canon {n : List Char} (h : '|' ∉ n) : '|' ∉ canon n := by
+  unfold canon fqdn
+  intro hm
+  rw [List.mem_map] at hm
+  obtain ⟨c, hc, hl⟩ := hm
+  have : c = '|' := (lowerAscii_bar c).mp hl
+  subst this
+  split at hc
+  · exact h hc
+  · rcases List.mem_append.mp hc with hc | hc
+    · exact h hc
+    · simp at hc
+
+theorem bar_notin_cacheKey {n : List Char} (q : Nat) (h : '|' ∉ n) : '|' ∉ cacheKey n q := by
+  unfold cacheKey qtypeStr
+  intro hm
+  rcases List.mem_append.mp hm with hm | hm
+  · exact bar_notin_canon h hm
+  · exact (digit_ne hm).1 rfl
+
+theorem cacheKey_inj {n1 n2 : List Char} {q1 q2 : Nat} (h : cacheKey n1 q1 = cacheKey n2 q2) :
+    canon n1 = canon n2 ∧ q1 = q2 := by
+  unfold cacheKey qtypeStr at h
+  obtain ⟨l1, h1⟩ := canon_ends n1
+  obtain ⟨l2, h2⟩ := canon_ends n2
+  rw [h1, h2] at h ⊢
+  simp only [List.append_assoc, List.singleton_append] at h
+  obtain ⟨r1, r2⟩ := split_last '.' l1 l2 _ _ (fun hm => (digit_ne hm).2 rfl) (fun hm => (digit_ne hm).2 rfl) h
+  exact ⟨by rw [r1], toDigits_inj r2⟩
+
+/-- **Scoped keys.**  For names without a `|` character, equal response-cache keys mean: the same name
+up to ASCII case and trailing dot, the same query type and the same scope string. -/
+theorem scopedKey_inj {n1 n2 : List Char} {q1 q2 : Nat} {s1 s2 : List Char} (hn1 : '|' ∉ n1) (hn2 : '|' ∉ n2)
+    (h : scopedKey (cacheKey n1 q1) s1 = scopedKey (cacheKey n2 q2) s2) :
+    canon n1 = canon n2 ∧ q1 = q2 ∧ s1 = s2 := by
+  have b1 := bar_notin_cacheKey q1 hn1
+  have b2 := bar_notin_cacheKey q2 hn2
+  unfold scopedKey at h
+  by_cases e1 : s1 = [] <;> by_cases e2 : s2 = []
+  · rw [if_pos e1, if_pos e2] at h
+    obtain ⟨r1, r2⟩ := cacheKey_inj h
+    exact ⟨r1, r2, by rw [e1, e2]⟩
+  · rw [if_pos e1, if_neg e2] at h
+    exact absurd (h ▸ (by simp : '|' ∈ cacheKey n2 q2 ++ '|' :: s2)) b1
+  · rw [if_neg e1, if_pos e2] at h
+    exact absurd (h ▸ (by simp : '|' ∈ cacheKey n1 q1 ++ '|' :: s1)) b2
+  · rw [if_neg e1, if_neg e2] at h
+    obtain ⟨r1, r2⟩ := split_first '|' _ _ _ _ b1 b2 h
+    obtain ⟨r3, r4⟩ := cacheKey_inj r1
+    exact ⟨r3, r4, r2⟩
+
+theorem scopeOf_inj {r1 r2 : Route} (h : scopeOf r1 = scopeOf r2) : r1 = r2 := by
+  cases r1 with
+  | asIs d1 =>
+    cases d1 <;> cases r2 with
+    | asIs d2 => cases d2 <;> simp_all [scopeOf]
+    | _ => simp [scopeOf] at h
+  | reject => cases r2 with
+    | asIs d2 => cases d2 <;> simp [scopeOf] at h
+    | _ => first | rfl | simp [scopeOf] at h
+  | upstream s => cases r2 with
+    | asIs d2 => cases d2 <;> simp [scopeOf] at h
+    | upstream s2 => simp [scopeOf] at h; rw [h]
+    | _ => simp [scopeOf] at h
+  | index i => cases r2 with
+    | asIs d2 => cases d2 <;> simp [scopeOf] at h
+    | index j => simp [scopeOf] at h; rw [toDigits_inj h]
+    | _ => simp [scopeOf] at h
+  | none => cases r2 with
+    | asIs d2 => cases d2 <;> simp [scopeOf] at h
+    | none => rfl
+    | _ => simp [scopeOf] at h
+
+theorem baseKey_scopedKey {n : List Char} (q : Nat) (s : List Char) (hn : '|' ∉ n) :
+    baseKey (scopedKey (cacheKey n q) s) = cacheKey n q := by
+  have b := bar_notin_cacheKey q hn
+  unfold baseKey scopedKey
+  have tw : ∀ (l r : List Char), '|' ∉ l → (l ++ '|' :: r).takeWhile (· != '|') = l := by
+    intro l r hl
+    induction l with
+    | nil => simp
+    | cons c cs ih =>
+      have hc : c ≠ '|' := fun h => hl (h ▸ List.mem_cons_self)
+      simp [hc, ih (fun hm => hl (List.mem_cons_of_mem _ hm))]
+  have tw0 : ∀ (l : List Char), '|' ∉ l → l.takeWhile (· != '|') = l := by
+    intro l hl
+    induction l with
+    | nil => simp
+    | cons c cs ih =>
+      have hc : c ≠ '|' := fun h => hl (h ▸ List.mem_cons_self)
+      simp [hc, ih (fun hm => hl (List.mem_cons_of_mem _ hm))]
+  split
+  · exact tw0 _ b
+  · exact tw _ _ b
+
+
+
+/-! ## unique keys -/
+
+def KN (es : List (Key × Entry)) : Prop := (es.map Prod.fst).Nodup
+
+theorem KN.of_filter {es : List (Key × Entry)} (f : Key × Entry → Bool) (h : KN es) : KN (es.filter f) :=
+  List.Nodup.sublist (List.Sublist.map _ List.filter_sublist) h
+
+theorem KN.of_store {es : List (Key × Entry)} (k : Key) (e : Entry) (h : KN es) : KN (store es k e) := by
+  unfold KN store
+  simp only [List.map_cons, List.nodup_cons]
+  refine ⟨?_, KN.of_filter _ h⟩
+  intro hm
+  obtain ⟨p, hp, hk⟩ := List.mem_map.mp hm
+  exact (mem_erase.mp hp).2 hk
+
+theorem map_fst_cloneAll (es : List (Key × Entry)) (id0 : Nat) : (cloneAll es id0).map Prod.fst = es.map Prod.fst := by
+  induction es generalizing id0 with
+  | nil => rfl
+  | cons p rest ih => obtain ⟨k, e⟩ := p; simp [cloneAll, ih]
+
+theorem step_KN (w : World) (op : Op) (h : KN w.st.entries) : KN (step w op).1.st.entries := by
+  cases op with
+  | insert now key host qtype ttl ans nAns ns isIp =>
+    simp only [step, State.insert]
+    cases isIp
+    · exact h.of_store _ _
+    · exact h
+  | lookup now key ign =>
+    simp only [step, State.lookup]
+    cases hf : find w.st.entries key with
+    | none => exact h
+    | some e0 =>
+      cases hl : lookupEntry w.cfg now ign e0 with
+      | mk oe r =>
+        cases oe with
+        | none => simp only [hl]; exact h.of_filter _
+        | some e' => simp only [hl]; exact h.of_store _ _
+  | janitor now choice =>
+    simp only [step, State.janitor, lruEvict, timeEvict]
+    split <;> split <;> first | exact (h.of_filter _).of_filter _ | exact h.of_filter _ | exact h
+  | reload c =>
+    simp only [step, State.reload]
+    unfold KN; rw [map_fst_cloneAll]; exact h
+  | reconf c => exact h
+  | refreshDone now key =>
+    simp only [step, State.refreshDone]
+    cases hf : find w.st.entries key with
+    | none => exact h
+    | some e =>
+      simp only []
+      split
+      · split
+        · exact h.of_store _ _
+        · exact h
+      · exact h.of_filter _
+  | remove key => exact h.of_filter _
+  | removeFamily base =>
+    simp only [step, State.removeFamily]
+    split
+    · exact h
+    · exact h.of_filter _
+
+theorem run_KN (ops : List Op) (w : World) (h : KN w.st.entries) : KN (run w ops).1.st.entries := by
+  induction ops generalizing w with
+  | nil => exact h
+  | cons op ops ih => rw [run_cons]; exact ih _ (step_KN w op h)
+
+theorem find_of_mem {es : List (Key × Entry)} (h : KN es) {k : Key} {e : Entry} (hm : (k, e) ∈ es) :
+    find es k = some e := by
+  induction es with
+  | nil => simp at hm
+  | cons p rest ih =>
+    obtain ⟨k0, e0⟩ := p
+    unfold KN at h
+    simp only [List.map_cons, List.nodup_cons] at h
+    simp only [List.mem_cons, Prod.mk.injEq] at hm
+    simp only [find]
+    rcases hm with ⟨rfl, rfl⟩ | hm
+    · simp
+    · have : k0 ≠ k := fun hk => h.1 (hk ▸ List.mem_map.mpr ⟨(k, e), hm, rfl⟩)
+      simp [this, ih h.2 hm]
+
+/-- removing `ch` (distinct keys, all present) from a list with unique keys removes exactly `|ch|` entries -/
+theorem length_filter_not_contains (es : List (Key × Entry)) (ch : List Key) (hkn : KN es) (hnd : ch.Nodup)
+    (hall : ∀ c ∈ ch, c ∈ es.map Prod.fst) :
+    (es.filter (fun p => !ch.contains p.1)).length + ch.length = es.length := by
+  induction es generalizing ch with
+  | nil =>
+    cases ch with
+    | nil => rfl
+    | cons c cs => simpa using hall c List.mem_cons_self
+  | cons p rest ih =>
+    obtain ⟨k, e⟩ := p
+    unfold KN at hkn
+    simp only [List.map_cons, List.nodup_cons] at hkn
+    by_cases hk : k ∈ ch
+    · -- k is removed; continue with ch.erase k
+      have hnd' : (ch.erase k).Nodup := hnd.erase k
+      have hall' : ∀ c ∈ ch.erase k, c ∈ rest.map Prod.fst := by
+        intro c hc
+        have hc' : c ∈ ch := List.mem_of_mem_erase hc
+        have hne : c ≠ k := by
+          intro h; subst h
+          exact (List.Nodup.not_mem_erase hnd) hc
+        have := hall c hc'
+        simp only [List.map_cons, List.mem_cons] at this
+        rcases this with h | h
+        · exact absurd h hne
+        · exact h
+      have hfe : rest.filter (fun p => !ch.contains p.1) = rest.filter (fun p => !(ch.erase k).contains p.1) := by
+        apply List.filter_congr
+        intro p hp
+        have hpk : p.1 ≠ k := fun h => hkn.1 (h ▸ List.mem_map.mpr ⟨p, hp, rfl⟩)
+        by_cases hpc : p.1 ∈ ch
+        · simp [hpc, (List.mem_erase_of_ne hpk).mpr hpc]
+        · have : p.1 ∉ ch.erase k := fun h => hpc (List.mem_of_mem_erase h)
+          simp [hpc, this]
+      have := ih (ch.erase k) hkn.2 hnd' hall'
+      have hlen : (ch.erase k).length + 1 = ch.length := by
+        rw [List.length_erase_of_mem hk]
+        have : 0 < ch.length := List.length_pos_of_mem hk
+        omega
+      have hck : ch.contains k = true := by simpa using hk
+      simp only [List.filter_cons, hck, Bool.not_true, Bool.false_eq_true, if_false, List.length_cons]
+      rw [hfe]; omega
+    · have hall' : ∀ c ∈ ch, c ∈ rest.map Prod.fst := by
+        intro c hc
+        have := hall c hc
+        simp only [List.map_cons, List.mem_cons] at this
+        rcases this with h | h
+        · exact absurd (h ▸ hc) hk
+        · exact h
+      have := ih ch hkn.2 hnd hall'
+      have hck : ch.contains k = false := by simpa using hk
+      simp only [List.filter_cons, hck, Bool.not_false, if_true, List.length_cons]
+      omega
+
+
+
+/-! ## LRU eviction -/
+
+theorem validChoice_spec {es : List (Key × Entry)} {k : Nat} {ch : List Key} (h : validChoice es k ch = true) :
+    ch.length = k ∧ ch.Nodup ∧ (∀ c ∈ ch, (find es c).isSome = true) ∧
+    ∀ c ∈ ch, ∀ p ∈ es, p.1 ∉ ch → ((find es c).map (·.lastAccess)).getD 0 ≤ p.2.lastAccess := by
+  unfold validChoice at h
+  simp only [Bool.and_eq_true, beq_iff_eq, decide_eq_true_eq, List.all_eq_true, Bool.or_eq_true,
+    List.contains_iff_mem] at h
+  obtain ⟨⟨⟨h1, h2⟩, h3⟩, h4⟩ := h
+  refine ⟨h1, h2, h3, ?_⟩
+  intro c hc p hp hnp
+  rcases h4 c hc p hp with h | h
+  · exact absurd h hnp
+  · exact h
+
+/-- what `evictLRUIfFull` achieves when the choice it follows is a legal one -/
+theorem lruEvict_spec (cfg : Cfg) (es : List (Key × Entry)) (choice : List Key) (hkn : KN es)
+    (hmax : cfg.maxSize > 0) (hover : (es.length : Int) > cfg.maxSize)
+    (hv : validChoice es (es.length - cfg.maxSize.toNat) choice = true) :
+    (lruEvict cfg es choice).length = cfg.maxSize.toNat ∧
+    (∀ p ∈ lruEvict cfg es choice, p ∈ es) ∧
+    ∀ p ∈ es, p ∉ lruEvict cfg es choice → ∀ q ∈ lruEvict cfg es choice, p.2.lastAccess ≤ q.2.lastAccess := by
+  obtain ⟨h1, h2, h3, h4⟩ := validChoice_spec hv
+  have heq : lruEvict cfg es choice = es.filter (fun p => !choice.contains p.1) := by
+    unfold lruEvict
+    rw [if_pos ⟨hmax, hover⟩]
+    simp only [hv, if_true]
+  rw [heq]
+  refine ⟨?_, fun p hp => (List.mem_filter.mp hp).1, ?_⟩
+  · have hall : ∀ c ∈ choice, c ∈ es.map Prod.fst := by
+      intro c hc
+      have := h3 c hc
+      cases hf : find es c with
+      | none => rw [hf] at this; cases this
+      | some e => exact List.mem_map.mpr ⟨(c, e), find_mem hf, rfl⟩
+    have := length_filter_not_contains es choice hkn h2 hall
+    omega
+  · intro p hp hnp q hq
+    obtain ⟨hq1, hq2⟩ := List.mem_filter.mp hq
+    have hpc : p.1 ∈ choice := by
+      by_cases hc : p.1 ∈ choice
+      · exact hc
+      · exact absurd (List.mem_filter.mpr ⟨hp, by simpa using hc⟩) hnp
+    have hqc : q.1 ∉ choice := by simpa using hq2
+    have := h4 p.1 hpc q hq1 hqc
+    rw [find_of_mem hkn (k := p.1) (e := p.2) hp] at this
+    simpa using this
+
+theorem lruEvict_noop (cfg : Cfg) (es : List (Key × Entry)) (choice : List Key)
+    (h : ¬ (cfg.maxSize > 0 ∧ (es.length : Int) > cfg.maxSize)) : lruEvict cfg es choice = es := by
+  unfold lruEvict; rw [if_neg h]
+
+theorem timeEvict_spec (cfg : Cfg) (now : Int) (es : List (Key × Entry)) (p : Key × Entry) :
+    p ∈ timeEvict cfg now es ↔ p ∈ es ∧ (useTimeEviction cfg = true → effDeadline cfg p.2 > now) := by
+  unfold timeEvict
+  by_cases h : useTimeEviction cfg = true
+  · rw [if_pos h]; simp [List.mem_filter, h]
+  · rw [if_neg h]; simp [h]
+
+
 end DaeVerif.C08
